@@ -248,7 +248,20 @@ func check(prop, tier string, writeLock bool, filter string) int {
 		fmt.Fprintln(os.Stderr, err)
 		return 2
 	}
-	defer os.RemoveAll(scratch)
+	defer func() {
+		// GOVC_KEEP_SMT=<dir>: keep the generated SMT-LIB files (debugging aid)
+		if keep := os.Getenv("GOVC_KEEP_SMT"); keep != "" {
+			_ = os.MkdirAll(keep, 0o755)
+			if ents, err := os.ReadDir(filepath.Join(scratch, "smt")); err == nil {
+				for _, e := range ents {
+					if b, err := os.ReadFile(filepath.Join(scratch, "smt", e.Name())); err == nil {
+						_ = os.WriteFile(filepath.Join(keep, e.Name()), b, 0o644)
+					}
+				}
+			}
+		}
+		os.RemoveAll(scratch)
+	}()
 
 	violation := func(reason, detail string) int {
 		rp := filepath.Join(replayDir, prop+"-infrastructure.json")
